@@ -4,7 +4,7 @@
     [DSub s] = subset encoding, [DVec x] = integer-count / binary-indicator / real-contribution encoding;
     [res_eq] = same shape and equal rationals; norms are represented by their squares). *)
 From Coq Require Import PrimFloat Permutation.
-From PV Require Import Lib.Common Lib.FloatK Model.C05_Latent Model.C05_Factory Proofs.C05_Latent Proofs.C05_Avail Proofs.C05_Factory Gen.C05_Kernel Proofs.C05_Kernel.
+From PV Require Import Lib.Common Lib.FloatK Model.C05_Latent Model.C05_Factory Proofs.C05_Latent Proofs.C05_Avail Proofs.C05_Factory Gen.C05_Kernel Proofs.C05_Kernel Proofs.C05_Session.
 Local Open Scope Q_scope.
 
 (** Every family's subset formula is its contribution-vector formula ("the definition") evaluated at
@@ -246,6 +246,53 @@ Theorem C05_kernel_gb_slice : forall (l : list Q) nbest,
 Proof. exact (@k_gb_slice Q). Qed.
 Print Assumptions C05_kernel_gb_slice.
 
+(** Sessions: a problem object that is re-used — data re-assigned through its setters between calls — answers every call
+    from the data it holds at that call: after ANY history of assignments and calls, the next call returns the latent
+    vector of the last assignment, and two histories that leave the same data give the same answer. *)
+Theorem C05_session_call_is_function_of_current_data : forall n fd0 ops d,
+  snd (run n fd0 (ops ++ [OCall d])) = snd (run n fd0 ops) ++ [latent n (last_set fd0 ops) d].
+Proof. exact session_call. Qed.
+Print Assumptions C05_session_call_is_function_of_current_data.
+Theorem C05_session_history_irrelevant : forall n fd0 fd0' ops ops' d, last_set fd0 ops = last_set fd0' ops' ->
+  last (snd (run n fd0 (ops ++ [OCall d]))) None = last (snd (run n fd0' (ops' ++ [OCall d]))) None.
+Proof. exact session_history_irrelevant. Qed.
+Print Assumptions C05_session_history_irrelevant.
+(** Scale law: the linear criteria (EBV, GEBV, wGEBV, gwGEBV, EMBV, random, UC, OHV) are homogeneous of degree one in their
+    table — for every factor a (not only positive ones), every decision encoding, guarded or not. *)
+Theorem C05_linear_scale_law : forall n g t M a d,
+  res_eq (latent n (FLin g t (scaleM a M)) d) (omap (map (lv_scale a)) (latent n (FLin g t M) d)).
+Proof. exact latent_lin_scale. Qed.
+Print Assumptions C05_linear_scale_law.
+(** Expected maximum breeding value: if every simulated progeny of a line has breeding value b for a trait (a fully homozygous
+    line: every doubled haploid is the line itself), the mean over the replicates of the per-replicate maxima is b, for every
+    number of replicates and progeny. *)
+Theorem C05_embv_homozygous_is_bv : forall reps q b, reps <> [] ->
+  (forall bvs, In bvs reps -> bvs <> [] /\ forall r, In r bvs -> nth q r 0 == b) -> embv_entry reps q == b.
+Proof. exact embv_entry_const. Qed.
+Print Assumptions C05_embv_homozygous_is_bv.
+
+(** Finding C05-tfreq-inplace-stale-flags: the tfreq setters of the PAU / MOGS mixins store the flags derived from the targets;
+    an in-place update of the target array the problem holds is seen by the distance term but not by the availability term
+    ([pau_stale] / [mogs_stale] model the code: flags of the targets at the setter, distances to the current targets) ... *)
+Theorem C05_tfreq_inplace_stale_flags_refuted : exists pl G w tf_set tf_now p t s,
+  mogs_stale pl G w tf_set tf_now p t s <> mogs_pau_code pl G w tf_now p t s ++ pafd pl G w tf_now p t s /\
+  pau_stale pl G w tf_set tf_now p t s <> pau_code pl G w tf_now p t s.
+Proof. exact tfreq_inplace_stale_refuted. Qed.
+Print Assumptions C05_tfreq_inplace_stale_flags_refuted.
+(** ... exactly when a target changes its class: if every target stays in its class the result is the definition on the
+    current targets *)
+Theorem C05_tfreq_inplace_mogs_partial : forall pl G w tf_set tf_now p t s,
+  (forall j q, (j < p)%nat -> (q < t)%nat -> Qle_bool (mget tf_set j q) 0 = Qle_bool (mget tf_now j q) 0 /\ Qle_bool 1 (mget tf_set j q) = Qle_bool 1 (mget tf_now j q)) ->
+  mogs_stale pl G w tf_set tf_now p t s = mogs_pau_code pl G w tf_now p t s ++ pafd pl G w tf_now p t s.
+Proof. exact mogs_stale_partial. Qed.
+Print Assumptions C05_tfreq_inplace_mogs_partial.
+Theorem C05_tfreq_inplace_pau_partial : forall pl G w tf_set tf_now p t s,
+  (forall j q, (j < p)%nat -> (q < t)%nat -> t_minor (mget tf_set j q) = t_minor (mget tf_now j q) /\ t_het (mget tf_set j q) = t_het (mget tf_now j q)
+                                            /\ t_major (mget tf_set j q) = t_major (mget tf_now j q)) ->
+  pau_stale pl G w tf_set tf_now p t s = pau_code pl G w tf_now p t s.
+Proof. exact pau_stale_partial. Qed.
+Print Assumptions C05_tfreq_inplace_pau_partial.
+
 (** non-vacuity: concrete values meeting the hypotheses used above *)
 Example C05_hyps_satisfiable :
   has_vec (FOcs 1 [[1]; [2]; [3]] [[1; 1#2; 0]; [0; 1; 1#4]; [0; 0; 1]]) = true /\ in_range 3 [2; 0]%nat /\ [2; 0]%nat <> [] /\ NoDup [2; 0]%nat
@@ -285,3 +332,19 @@ Proof.
   split; [apply Qle_bool_iff; vm_compute; reflexivity|]. split; [apply Qle_bool_iff; vm_compute; reflexivity|].
   split; [vm_compute; split; discriminate|]. split; [vm_compute; split; [reflexivity | discriminate]|]. split; vm_compute; reflexivity.
 Qed.
+
+Example C05_session_hyps_satisfiable :
+  last_set (FMgr [[1]]) [OSet (FMgr [[2]]); OCall (DSub [0%nat])] = last_set (FMgr [[3]]) [OCall (DSub [0%nat]); OSet (FMgr [[2]])]
+  /\ [[[3; 1]; [3; 0]]; [[3; 2]]] <> [] /\ (forall bvs, In bvs [[[3; 1]; [3; 0]]; [[3; 2]]] -> bvs <> [] /\ forall r, In r bvs -> nth 0 r 0 == 3)
+  /\ embv_entry [[[3; 1]; [3; 0]]; [[3; 2]]] 1 == 3 # 2.
+Proof.
+  split; [reflexivity|]. split; [discriminate|]. split.
+  - intros bvs [<-|[<-|[]]]; (split; [discriminate|]); intros r H; cbn in H; intuition (subst; reflexivity).
+  - vm_compute. reflexivity.
+Qed.
+
+Example C05_tfreq_inplace_hyps_satisfiable :
+  (forall j q, (j < 1)%nat -> (q < 1)%nat -> Qle_bool (mget [[1#2]] j q) 0 = Qle_bool (mget [[1#4]] j q) 0 /\ Qle_bool 1 (mget [[1#2]] j q) = Qle_bool 1 (mget [[1#4]] j q)) /\
+  (forall j q, (j < 1)%nat -> (q < 1)%nat -> t_minor (mget [[1#2]] j q) = t_minor (mget [[1#4]] j q) /\ t_het (mget [[1#2]] j q) = t_het (mget [[1#4]] j q)
+                                            /\ t_major (mget [[1#2]] j q) = t_major (mget [[1#4]] j q)).
+Proof. split; intros j q Hj Hq; (destruct j; [|lia]); (destruct q; [|lia]); repeat split; reflexivity. Qed.
